@@ -330,7 +330,10 @@ pub fn run_check(prop: &str, tier: &str) -> i32 {
             seq_check(prop, tier, s, &["C11", "C01", "C14"], budget * 0.5, &mut report);
             // sweeper vs writers renewing / replacing the key, all interleavings within the bound
             let bound = if thorough { 3 } else { 2 };
-            schedprops::run_programs(concprogs::sweep_programs(thorough), bound, 3000, budget * 0.25, &schedprops::judge_linearizable, None, &["C11", "C07", "C13", "C14"], &mut report);
+            let mut progs = concprogs::sweep_programs(thorough);
+            // a reader whose stale-read retry lands on a replacement that is already expired
+            progs.extend(c08::programs(false).into_iter().filter(|p| p.name.starts_with("ttl-dead")));
+            schedprops::run_programs(progs, bound, 3000, budget * 0.25, &schedprops::judge_linearizable, None, &["C11", "C07", "C13", "C14"], &mut report);
             // crash between the TTL write and its flush, reopened with TTL on
             let cs: Vec<Suite> = suites::crash_suites(thorough).into_iter().filter(|s| s.name == "crash-ttl-v3" || s.name.starts_with("crash-ttl-reuse")).collect();
             let plan = crashprops::CrashPlan { crash: true, layout_tag: "C10", nest: 0, reopen_cycles: 0, sector_tear: false, layout: false, probe_auto_ts: false, continue_after: false };
